@@ -701,7 +701,7 @@ so every `…_spec / _symm / _self / _defined` theorem of this file (and of `Pro
 `Props/C09.lean`) is a theorem about what `distances.py` says now.  No arithmetic law is used,
 except by the counting kernels (`CountLaws`: `ofNat 0 = 0`, `ofNat (n+1) = ofNat n + 1`,
 `a + 0 = a` — the code adds `1.0` / `0.0` to a float where the model counts in `ℕ`).
-Helper lemmas: `Proofs/GenMetrics.lean`.  NOT translated: mahalanobis, rankdata / spearmanr,
+Helper lemmas: `Proofs/GenMetrics.lean`.  NOT translated: rankdata / spearmanr,
 jensen_shannon_divergence, symmetric_kl_divergence, wasserstein_1d, kantorovich, sinkhorn,
 circular_kantorovich, bit_hamming, bit_jaccard (array temporaries / whole-array numpy operations:
 outside the translator's subset; tied by sampled comparison only). -/
@@ -888,6 +888,16 @@ theorem kernel_weighted_minkowski_refines {α : Type} [Arith α] (x y w : Array 
     GenMetric.weighted_minkowski fuel x y w p
       = some (Metrics.weightedMinkowski x.toList y.toList w.toList p) :=
   weighted_minkowski_refines x y w p h hs fuel hf
+
+/-- `distances.mahalanobis`: a local `np.empty` array filled by a first loop (stores in bounds, every cell
+stored to before it is loaded), then the nested loop over the `n × n` matrix `vinv` (rows as arrays;
+model: the list of its rows); fuel `≥ 2n + 2` -/
+theorem kernel_mahalanobis_refines {α : Type} [Arith α] (x y : Array α) (vinv : Array (Array α))
+    (h : x.size = y.size) (hv : vinv.size = x.size)
+    (hr : ∀ i (hi : i < vinv.size), vinv[i].size = x.size) (fuel : Nat) (hf : 2 * x.size + 2 ≤ fuel) :
+    GenMetric.mahalanobis fuel x y vinv
+      = some (Metrics.mahalanobis x.toList y.toList (vinv.toList.map Array.toList)) :=
+  mahalanobis_refines x y vinv h hv hr fuel hf
 
 /-- `distances.tsss` -/
 theorem kernel_tsss_refines {α : Type} [Arith α] [Trig α] (x y : Array α) (h : x.size = y.size)
